@@ -18,15 +18,15 @@ pub const PROPS: [&str; 16] = ["C01", "C05", "C06", "C07", "C08", "C09", "C10", 
 fn budget(prop: &str, tier: Tier) -> u64 {
     // runs per batch; sized for ~15-30 s (quick) and ~4-6 min (thorough) on 16 cores
     let (q, t) = match prop {
-        "C01" => (700_000, 12_000_000),
-        "C05" => (1_500_000, 30_000_000),
-        "C09" => (14_000, 280_000),
+        "C01" => (700_000, 10_000_000),
+        "C05" => (1_500_000, 20_000_000),
+        "C09" => (14_000, 200_000),
         "C10" => (500_000, 8_000_000),
-        "C11" => (600_000, 10_000_000),
-        "C16" => (40_000, 700_000),
-        "C17" => (900_000, 14_000_000),
-        "C20" => (12_000_000, 200_000_000),
-        _ => (1_200_000, 24_000_000),
+        "C11" => (600_000, 8_000_000),
+        "C16" => (40_000, 600_000),
+        "C17" => (900_000, 10_000_000),
+        "C20" => (12_000_000, 100_000_000),
+        _ => (1_200_000, 16_000_000),
     };
     if tier == Tier::Quick {
         q
